@@ -344,9 +344,9 @@ PROPS.update({
                       "once with the same call data plus the callee's return data, error text and leftover gas (C05_join_points_once_with_call_data); with join points off no join-point event occurs in any execution; events nest (C18_events_balanced). "
                       "The model's event stream is compared with the code event by event: the fake provider and runtime log every query and the decoded "
                       "request; an independent oracle checks per call frame: queries are [] / [pre] / [pre, post], payload fields equal the call's, a bound Aspect receives the call also for empty calldata."),
-    "C06": _exec_prop(run_C06, "Coq theorems (out-of-gas join point = EVM out of gas with no gas, post failure forfeits, success hands back the leftover, frame gas <= supplied) + frame correspondence on gas values",
+    "C06": _exec_prop(run_C06, "Coq theorems (out-of-gas join point = EVM out of gas with no gas, post failure forfeits, success hands back the leftover; no frame of any entry point ever returns more gas than it was given, by mutual induction from local per-instruction assumptions) + frame correspondence on gas values + gas oracle",
                       "Theorems in Coq about the gas the frame logic hands over: a join point failing with the text 'out of gas' yields the EVM's own error and zero gas (pre and post), any other post failure forfeits all gas and rolls back, "
-                      "a succeeding post join point's leftover is what the caller gets, and no CALL frame returns more than it was given provided Aspects, precompiles and interpreter runs do not. The model's per-step gas, enter/exit gas and "
+                      "a succeeding post join point's leftover is what the caller gets, and (C06_no_frame_gains_gas, Proofs/Exec_gas.v) no frame of any entry point, at any depth of any call tree, returns more gas than it was given, provided no single instruction increases its frame's gas, returned gas is credited once, and Aspects and precompiles report no more than they got. The model's per-step gas, enter/exit gas and "
                       "call-tree gas are compared with the implementation's under Aspects burning 0 / some / more than available gas."),
     "C08": _exec_prop(run_C08, "Coq theorems (one node per attempt with inputs as made and outcome as returned; existing nodes immutable) by mutual induction + frame correspondence + independent instruction-stream log",
                       "Theorems in Coq: every do_call / do_create adds exactly one node at the next index under the cursor with caller, target, calldata/init code, value, gas as passed and ret, leftover gas, error as returned, "
